@@ -147,7 +147,31 @@ func (c GenCfg) coords(r *prng.Rand, l int, ring bool) []Coord {
 			out = append(out, c.coord(r, l))
 		}
 		last := append(Coord(nil), out[0]...)
-		if len(last) > 2 && r.Chance(0.2) {
+		if r.Chance(0.08) {
+			// closed but for rounding noise: one to four representable values
+			// off in some ordinates, or a zero of the other sign (an exact
+			// operation must not mistake this for closed)
+			for i := range last {
+				if !r.Chance(0.6) {
+					continue
+				}
+				v := float64(last[i])
+				switch {
+				case math.IsNaN(v) || math.IsInf(v, 0):
+				case v == 0 && r.Chance(0.5):
+					last[i] = F(math.Copysign(0, -1))
+					if math.Signbit(v) {
+						last[i] = 0
+					}
+				default:
+					dir := math.Inf(1 - 2*r.Intn(2))
+					for k := r.Range(1, 4); k > 0; k-- {
+						v = math.Nextafter(v, dir)
+					}
+					last[i] = F(v)
+				}
+			}
+		} else if len(last) > 2 && r.Chance(0.2) {
 			// closed where it matters (X and Y); height or measure of the
 			// closing coordinate are its own (a measure runs on along the ring)
 			for i := 2; i < len(last); i++ {
